@@ -41,9 +41,15 @@ class Experiment(object):
         for name, desc in sorted(exp['files'].items()):
             self.dk.write(name, expgen.file_bytes(desc))
             self.dk.materialise(name)
+        self.eacces = set()
         for s in exp['samples']:
             if s.get('fault') == 'enoent_at_open':
                 self.enoent.add(s['File Path'].split('/')[-1])
+            if s.get('fault') == 'eacces_at_open':
+                self.eacces.add(s['File Path'].split('/')[-1])
+        import os as _os
+        for dname in exp.get('dirs', []):
+            _os.makedirs(_os.path.join(self.dk.root, dname), exist_ok=True)
         self.base_dir = self.dk.root
         self.inst_t, self.beads_t, self.samples_t = expgen.tables(exp)
 
@@ -76,7 +82,7 @@ class Experiment(object):
 
     def call(self, fn, *a, **kw):
         """one call into the workflow under the I/O seam; returns ('ok', result) | ('exc', exception)"""
-        seam = seams.OpenSeam(self.io_events, root=self.base_dir, faults={'enoent': self.enoent})
+        seam = seams.OpenSeam(self.io_events, root=self.base_dir, faults={'enoent': self.enoent, 'eacces': self.eacces})
         with seams.patched(self.F.io, 'open', seam):
             with warnings.catch_warnings():
                 warnings.simplefilter('ignore')
@@ -180,8 +186,8 @@ class C11Machine(_BatchBase):
 
     def plan(self, tier):
         if tier == 'quick':
-            return {'runs': 260, 'budget_s': 150, 'batch': 1, 'shrink_s': 240}
-        return {'runs': 9000, 'budget_s': 1800, 'batch': 1, 'shrink_s': 400}
+            return {'runs': 260, 'budget_s': 150, 'batch': 2, 'shrink_s': 240}
+        return {'runs': 9000, 'budget_s': 1800, 'batch': 2, 'shrink_s': 400}
 
     MATRIX = [None] + expgen.SAMPLE_FAULTS
 
@@ -479,8 +485,8 @@ class C10Machine(_BatchBase):
 
     def plan(self, tier):
         if tier == 'quick':
-            return {'runs': 170, 'budget_s': 150, 'batch': 1, 'shrink_s': 240}
-        return {'runs': 10000, 'budget_s': 1800, 'batch': 1, 'shrink_s': 400}
+            return {'runs': 170, 'budget_s': 150, 'batch': 2, 'shrink_s': 240}
+        return {'runs': 10000, 'budget_s': 1800, 'batch': 2, 'shrink_s': 400}
 
     def generate(self, rng, tier, index):
         small = tier == 'quick'
